@@ -280,7 +280,7 @@ impl Prop for C06 {
         "cases = generated contexts (in-scope scenario with random key, random 4-tuple incl. ports 0/65535, both IP versions, seq in {0,1,2^31-1,2^31,2^32-2,2^32-1,random}, payload none / 1..63 bytes, data offset 5 or 6..15 with options, history in {none, other flows' handshakes and data, earlier SYN on the same flow, same flow already validated, and — rarely — a crowd of 1100 / 4200 / 66000 other connections that reached the data stage}; urgent pointer 0 / 1 / around the payload length / 0xffff / random, window field varied, reserved header bits); in every context ALL 512 values of the 9 TCP flag bits are sent (exhaustive over flags per context). Oracle: flag rule of the statement (exactly SYN|ACK, ack = seq+1, no payload iff SYN and remaining flags within {PSH,URG,CWR,ECE} without CWR&ECE; otherwise no SYN|ACK); cookie relation purely metamorphic: identical across flag sets, client seq, client MAC, payload, history; different when exactly one of source IP, destination IP, source port, destination port, key (both halves, first half only, second half only) changes (three independent retries before reporting, 2^-96); the unchanged SYN is re-sent immediately before every varied SYN and once at the end and must give the same cookie each time. Tuples with source endpoint = destination endpoint are constructed in 6% of the contexts. Non-trivial = every (context, flag value) frame; distinct by frame hash. evaluations counts contexts; frames counts segments."
     }
     fn run(&self, ctx: &mut RunCtx) {
-        let n = ctx.share(ctx.tier.n(16_000, 300_000));
+        let n = ctx.share(ctx.tier.n(48_000, 400_000));
         ctx.run_generated("flags", n, ctx_strategy(), check);
         if ctx.worker == 0 {
             ctx.st.exhaustive_parts.push("TCP flags: all 512 values of the 9 flag bits in every generated context".into());
